@@ -3,7 +3,7 @@
    that still owes its generation CAS; a snapshot that is behind the container is owed a bump of
    the change counter), the facts about single steps they need, and their consequences. *)
 From V Require Import model.Base model.Conc model.Events model.Container proofs.ListLemmas.
-From V Require Import proofs.ContainerBase proofs.ContainerInv proofs.ContainerStep proofs.ContainerProofs.
+From V Require Import proofs.ContainerBase proofs.ContainerInv proofs.ContainerStep proofs.ContainerDirty proofs.ContainerProofs.
 From Coq Require Import ZifyBool ZifyNat ZifyN.
 Open Scope N_scope.
 
@@ -24,11 +24,24 @@ Definition will_bump (p : cpc) : bool :=
   | _ => false
   end.
 
-Ltac simq := cbn [fst snd pc prog fuse arg epoch handles rchange rgen rdata pend ustart ulast uprev
+(* ... or its owner is dead and the recover that the program has next will *)
+Definition wb (l : clst) : bool := will_bump (pc l) || dirty l.
+
+(* recover(dead owner, predicate true): the cells below this index are not the owner's any more *)
+Definition scan_idx (g : cgst) (p : cpc) : N :=
+  match p with
+  | RecLoadCell n _ _ | RecPDist0 n _ _ _ | RecLoadGen n _ _ | RecPDist1 n _ _ _ | RecRead n _ _ _
+  | RecValidate n _ _ _ _ | RecCasCell n _ _ _ => n
+  | RecSDist0 n _ _ _ | RecCasGen n _ _ _ | IncLoad (KRec n _ _) | IncCas _ (KRec n _ _) => n + 1
+  | RecEnd _ | RecIncChange _ _ => cap g
+  | _ => 0
+  end.
+
+Ltac simq := cbn [fst snd pc prog fuse arg epoch handles rchange rgen rdata pend ustart ulast uprev dirty orph dead
                   cap dist0 dist1 dist2 cells igen gens datas change clock published oplog settled
-                  set_pc set_fuse set_prog set_handles set_pend set_epoch set_snap set_ughost set_arg set_crash done abandon dirty orph dead
+                  set_pc set_fuse set_prog set_handles set_pend set_epoch set_snap set_ughost set_arg set_crash done abandon
                   set_cells set_igen set_gens set_datas set_published set_settled tick complete
-                  in_rec add_slot busy refreshing scanned in_upd me stale_pc will_bump] in *.
+                  in_rec add_slot busy refreshing scanned in_upd me stale_pc will_bump wb scan_idx window_slot orb] in *.
 
 (* case analysis of one step: every branch of step_acc with concrete g', l' *)
 Ltac brk H :=
@@ -40,18 +53,30 @@ Ltac brk H :=
   end.
 
 Record Facts (t : nat) (g : cgst) (l : clst) (g' : cgst) (l' : clst) : Prop := {
-  SF1 : forall i, gens g' i <> gens g i -> will_bump (pc l') = true;
-  SF2 : will_bump (pc l) = true -> will_bump (pc l') = true \/ change g < change g';
+  SF1 : forall i, gens g' i <> gens g i -> wb l' = true;
+  SF2 : wb l = true -> wb l' = true \/ change g < change g';
   SF3 : forall i, scanned (pc l') i = true -> i < cap g ->
           (scanned (pc l) i = true /\ rgen l' i = rgen l i /\ rchange l' = rchange l) \/ rgen l' i = gens g' i;
   SF4 : forall i, settled g' i = false -> odd (gens g' i) = true ->
           (settled g i = false /\ gens g' i = gens g i) \/ stale_pc (pc l') = Some (i, gens g' i);
   SF5 : forall i gn, stale_pc (pc l) = Some (i, gn) -> gn = gens g i -> gens g' i = gens g i ->
-          stale_pc (pc l') = Some (i, gn);
-  SF6 : (forall n e, cells g n = owner_of t e -> e < epoch l -> settled g n = true /\ odd (gens g n) = true) ->
+          stale_pc (pc l') = Some (i, gn) \/ In i (orph l');
+  SF6 : (forall i, cells g i <> EMPTY -> i < cap g) ->
+        (dirty l = true -> forall m, m < scan_idx g (pc l) -> cells g m <> owner_of t (epoch l)) ->
+        (forall n e, cells g n = owner_of t e -> e < epoch l -> settled g n = true /\ odd (gens g n) = true) ->
         forall n e, cells g' n = owner_of t e -> e < epoch l' -> settled g' n = true /\ odd (gens g' n) = true;
   SF7 : (forall i, cells g i <> EMPTY -> exists u e, cells g i = owner_of u e) ->
-        forall i, cells g' i <> EMPTY -> exists u e, cells g' i = owner_of u e
+        forall i, cells g' i <> EMPTY -> exists u e, cells g' i = owner_of u e;
+  SF8 : forall i, In i (orph l) -> In i (orph l');
+  SF9 : (forall i, cells g i <> EMPTY -> i < cap g) -> forall i, cells g' i <> EMPTY -> i < cap g';
+  SF10 : (dirty l = true -> (forall m, m < scan_idx g (pc l) -> cells g m <> owner_of t (epoch l)) /\
+            match pc l with RecPDist0 n o _ _ => o <> owner_of t (epoch l) -> cells g n <> owner_of t (epoch l) | _ => True end) ->
+         dirty l' = true -> (forall m, m < scan_idx g' (pc l') -> cells g' m <> owner_of t (epoch l')) /\
+            match pc l' with RecPDist0 n o _ _ => o <> owner_of t (epoch l') -> cells g' n <> owner_of t (epoch l') | _ => True end;
+  SF11 : (forall i, cells g i <> EMPTY -> i < cap g) ->
+         (dirty l = true -> forall m, m < scan_idx g (pc l) -> cells g m <> owner_of t (epoch l)) ->
+         ((forall n e, cells g n = owner_of t e -> ~ In e (dead l)) /\ (forall e, In e (dead l) -> e < epoch l)) ->
+         (forall n e, cells g' n = owner_of t e -> ~ In e (dead l')) /\ (forall e, In e (dead l') -> e < epoch l')
 }.
 
 Ltac fu :=
@@ -61,7 +86,7 @@ Ltac fu :=
   end.
 
 Ltac fin :=
-  intros; try match goal with E : pc ?l = _ |- _ => rewrite ?E in * end; simq;
+  intros; unfold wb in *; try match goal with E : pc ?l = _ |- _ => rewrite ?E in * end; simq;
   try discriminate; try congruence; try reflexivity; try assumption;
   try (exfalso; congruence);
   try (left; reflexivity);
@@ -83,6 +108,10 @@ Ltac fin2 :=
   try match goal with Hold : (forall n e, cells _ n = owner_of _ e -> _ -> _ /\ _), Hc : cells _ ?n = owner_of _ ?e, Hl : ?e < _ |- _ =>
         let A := fresh in let B := fresh in destruct (Hold n e Hc Hl) as [A B] end;
   repeat match goal with H : ?a = true -> _, H' : ?a = true |- _ => specialize (H H') end;
+  try match goal with |- ~ In _ _ => let Hin := fresh "Hin" in intros Hin end;
+  try match goal with Hd1 : (forall n e, cells _ n = owner_of _ e -> ~ In e _), Hc : cells _ ?n = owner_of _ ?e, Hin : In ?e _ |- _ =>
+        exact (False_ind _ (Hd1 n e Hc Hin)) end;
+  try match goal with Hd2 : (forall e, In e (dead _) -> e < _), Hin : In ?e (dead _) |- _ => specialize (Hd2 e Hin) end;
   try match goal with H : odd (?x + 1) = true, H' : odd ?x = true |- _ => rewrite odd_succ, H' in H; discriminate end;
   try lia; try congruence; try discriminate;
   try (exfalso; eapply owner_not_empty; first [eassumption|symmetry; eassumption]);
@@ -99,7 +128,13 @@ Ltac sf3 i :=
      rewrite ?N.ltb_lt, ?N.leb_le in *; lia]
   end.
 
-Ltac gen Hs := brk Hs; inversion Hs; subst; clear Hs; constructor; fin.
+Ltac sf10 := intros; unfold wb in *; try match goal with E : pc ?l = _ |- _ => rewrite ?E in * end; simq; try (exfalso; congruence).
+Ltac sf11 :=
+  let Hcap := fresh "Hcap" in let Hscan := fresh "Hscan" in let Hd1 := fresh "Hd1" in let Hd2 := fresh "Hd2" in
+  intros Hcap Hscan [Hd1 Hd2]; try match goal with E : pc ?l = _ |- _ => rewrite ?E in * end; simq;
+  try match goal with Hy : dirty ?l = false |- _ => rewrite ?Hy in * end;
+  split; intros; eauto.
+Ltac gen Hs := brk Hs; inversion Hs; subst; clear Hs; (constructor; [fin|fin|fin|fin|fin|fin|fin|fin|fin|sf10|sf11]).
 
 Section StepFacts.
   Variables (t : nat) (g : cgst) (l : clst).
@@ -108,14 +143,14 @@ Section StepFacts.
 
   Lemma step_facts g' l' es : step_acc t g l = Some (g', l', es) -> Facts t g l g' l'.
   Proof.
-    pose proof HL as [[Hf Hcf] H1 H2 H3 H4 H5 H6 H7 H8 H9 H10 H11]. unfold PcInv in H7.
+    pose proof HL as [(Hcf & Hdy & Hfz) H1 H2 H3 H4 H5 H6 H7 H8 H9 H10 H11]. unfold PcInv in H7.
     intros Hs. unfold step_acc, upd_next, add_next, after_inc, rec_next in Hs.
     destruct (pc l) eqn:Epc.
     - (* Idle *)
       destruct (prog l) as [|o p] eqn:Eprog; [discriminate|].
-      destruct o as [v [[|k]|]|j [[|k]|]|pr|]; try (cbn in Hcf; discriminate);
-        try (destruct (nth j (handles l) None) eqn:Ej); gen Hs.
-    - gen Hs.
+      destruct o as [v [[|k]|]|j [[|k]|]|pr|];
+        try (destruct (nth j (handles l) None) eqn:Ej); gen Hs; fin2.
+    - gen Hs; fin2.
     - (* AddScan *) gen Hs; fin2.
     - (* AddFinal *) gen Hs; fin2.
     - (* IncLoad *) destruct k; gen Hs; fin2.
@@ -146,7 +181,11 @@ Section StepFacts.
     - (* RecCasGen *) gen Hs; fin2.
     - (* RecEnd *) gen Hs; fin2.
     - (* RecIncChange *) gen Hs; fin2.
-      destruct (N.eq_dec e (epoch l)) as [->|Hne]; [apply H5; [exact H0|discriminate]|apply (H n e); auto; lia].
+      all: try match goal with
+           | Hold : (forall n e, cells g n = owner_of t e -> e < epoch l -> _), Hc : cells g ?n = owner_of t ?e |- settled g ?n = true /\ _ =>
+             destruct (N.eq_dec e (epoch l)) as [->|Hne]; [apply H5; [exact Hc|discriminate]|apply (Hold n e); auto; lia]
+           end.
+      all: try match goal with Hd2 : (forall e, In e (dead l) -> e < epoch l), Hin : In ?e (dead l) |- ?e < _ => specialize (Hd2 e Hin); lia end.
     - (* UpdDist0 *) gen Hs; fin2.
     - (* UpdLoadGen *) gen Hs; try sf3 i; fin2.
     - (* UpdDist1 *) gen Hs; try sf3 i; fin2.
@@ -156,30 +195,162 @@ Section StepFacts.
 
 End StepFacts.
 
+
+(* the same facts for the steps of a thread whose owner is dead *)
+Ltac byscan := match goal with Hs : (forall m, m < _ -> cells _ m <> _) |- _ => apply Hs; lia end.
+Ltac sf10d Hdy :=
+  let Hsc := fresh "Hsc" in let Hpo := fresh "Hpo" in let Hd' := fresh "Hd'" in
+  intros Hsc Hd'; destruct (Hsc Hdy) as [Hsc' Hpo]; clear Hsc;
+  try match goal with E : pc ?l = _ |- _ => rewrite ?E in * end; simq;
+  first [ exfalso; congruence
+        | split; [let m := fresh "m" in let Hm := fresh "Hm" in intros m Hm; try byscan|try exact I] ].
+
+Ltac notmine :=
+  let X := fresh "X" in
+  first [ assumption
+        | intro X; match goal with E : cells _ ?n = EMPTY |- _ => rewrite E in X end; symmetry in X; exact (owner_not_empty _ _ X)
+        | intro X; symmetry in X; exact (owner_not_empty _ _ X)
+        | match goal with Hpo : ?o <> _ -> cells _ ?n <> _ |- cells _ ?n <> _ => apply Hpo; assumption end ].
+Ltac scanstep n :=
+  match goal with
+  | |- cells _ ?m <> _ => destruct (N.eq_dec m n) as [->|?]; [notmine|byscan]
+  | |- fupd _ _ _ ?m <> _ => destruct (N.eq_dec m n) as [->|?]; [rewrite fupd_same; notmine|rewrite fupd_other by assumption; byscan]
+  end.
+
+Ltac getp :=
+  try match goal with Hw : _ \/ ?p = true |- _ =>
+    is_var p; let Hp := fresh "Hp" in
+    assert (Hp : p = true) by (let E := fresh "E" in destruct Hw as [[E _]|E]; [discriminate E|exact E]); subst p
+  end.
+Ltac gend Hs Hdy := brk Hs; inversion Hs; subst; clear Hs; (constructor; [fin|fin|fin|fin|fin|fin|fin|fin|fin|sf10d Hdy|sf11]).
+
+Section DirtyFacts.
+  Variables (t : nat) (g : cgst) (l : clst).
+  Hypothesis HGI : GInv g.
+  Hypothesis HD : LDirty g t l.
+
+  Lemma dirty_facts g' l' es : step_acc t g l = Some (g', l', es) -> Facts t g l g' l'.
+  Proof.
+    pose proof HD as [(Hcf & Hdy & Hfn & Hwhere) H1 H2 H3 H6 H7 H8 H9 H10 H11]. unfold PcInvD in H7.
+    intros Hs. unfold step_acc, upd_next, add_next, after_inc, rec_next in Hs.
+    destruct (pc l) eqn:Epc;
+      try (exfalso; destruct Hwhere as [[E _]|E]; cbn in E; discriminate);
+      cbn [rec_true] in Hwhere.
+    - (* Idle *)
+      destruct Hwhere as [[_ [r Er]]|E]; [|discriminate]. rewrite Er in *.
+      gend Hs Hdy; fin2.
+    - (* IncLoad *)
+      destruct k as [v n|i gn|n acc p]; try (exfalso; destruct Hwhere as [[E _]|E]; cbn in E; discriminate).
+      gend Hs Hdy; fin2.
+    - (* IncCas *)
+      destruct k as [v n|i gn|n acc p]; try (exfalso; destruct Hwhere as [[E _]|E]; cbn in E; discriminate).
+      gend Hs Hdy; fin2.
+    - (* RecDist2 *) getp; gend Hs Hdy; fin2.
+    - (* RecLoadCell *) getp; gend Hs Hdy; fin2; try scanstep n.
+    - (* RecPDist0 *) getp; gend Hs Hdy; fin2; try scanstep n.
+    - (* RecLoadGen *) getp; gend Hs Hdy; fin2; try scanstep n.
+    - (* RecPDist1 *) getp; gend Hs Hdy; fin2; try scanstep n.
+    - (* RecRead *) getp; gend Hs Hdy; fin2; try scanstep n.
+    - (* RecValidate *) getp; gend Hs Hdy; fin2; try scanstep n.
+    - (* RecCasCell *) getp; gend Hs Hdy; fin2; try scanstep n.
+      all: try byscan.
+      all: try (let X := fresh "X" in intro X; symmetry in X; exact (owner_not_empty _ _ X)).
+      all: match goal with Hg : gens _ _ = _ \/ _ |- _ => destruct Hg as [Hg|[Hv Hg]] end.
+      all: try (right; congruence).
+      all: try (exfalso; congruence).
+      all: try (exfalso; match goal with Ho : odd (gens _ ?n) = true, Ev : odd ?v = true, Hg : gens _ ?n = ?v + 1 |- _ => rewrite Hg, odd_succ, Ev in Ho; discriminate end).
+    - (* RecSDist0 *) getp; gend Hs Hdy; fin2; try scanstep n.
+    - (* RecCasGen *) getp; gend Hs Hdy; fin2; try scanstep n.
+    - (* RecEnd *) gend Hs Hdy; fin2.
+    - (* RecIncChange *) rewrite Hdy in Hs. gend Hs Hdy; fin2.
+      all: assert (Hnone : forall n0, cells g n0 <> owner_of t (epoch l)) by
+        (intros n0 X;
+         match goal with Hcap : (forall i, cells g i <> EMPTY -> i < cap g), Hsc : (forall m, m < cap g -> cells g m <> owner_of t (epoch l)) |- _ =>
+           apply (Hsc n0); [apply Hcap; rewrite X; apply owner_not_empty|exact X] end).
+      + match goal with Hc : cells g ?n = owner_of t ?e |- _ =>
+          destruct (N.eq_dec e (epoch l)) as [->|Hne]; [exfalso; exact (Hnone n Hc)|] end.
+        match goal with Hold : (forall n e, cells g n = owner_of t e -> e < epoch l -> _) |- _ => eapply Hold; eauto; lia end.
+      + match goal with Hin : In _ (_ :: _) |- _ => destruct Hin as [E|Hin'] end.
+        * subst. match goal with Hc : cells g ?n = owner_of t _ |- _ => exact (Hnone n Hc) end.
+        * match goal with Hd1 : (forall n e, cells g n = owner_of t e -> ~ In e (dead l)), Hc : cells g ?n = owner_of t ?e |- _ => exact (Hd1 n e Hc Hin') end.
+      + match goal with Hin : In _ (_ :: _) |- _ => destruct Hin as [E|Hin'] end; [subst; lia|].
+        match goal with Hd2 : (forall e, In e (dead l) -> e < epoch l), Hi : In _ (dead l) |- _ => specialize (Hd2 _ Hi); lia end.
+  Qed.
+End DirtyFacts.
+
+(* ... and for the step in which a call is abandoned *)
+Lemma abandon_facts t g l : LInv g t l -> fusable (pc l) = true -> Facts t g l (tick g) (abandon l).
+Proof.
+  intros HL Hb. pose proof (L0 _ _ _ HL) as (_ & Hdy & _).
+  constructor; unfold wb; simq.
+  - intros i H. congruence.
+  - intros _. left. reflexivity.
+  - intros i _ _. left. destruct (fusable_plain _ i Hb) as (_ & E & _). auto.
+  - intros i H1 H2. left. auto.
+  - intros i gn Hst _ _. right.
+    destruct (pc l) as [ | | | |k|c k| | | | | | | | | | | | | | | | | | | | | | | | | | | | | | | ]; try discriminate;
+      try (destruct k; try discriminate); cbn in *; inversion Hst; subst; left; reflexivity.
+  - intros _ _ Hold n e Hc He. eauto.
+  - auto.
+  - intros i Hin. destruct (window_slot (pc l)); [right|]; exact Hin.
+  - auto.
+  - intros _ _. split; [intros m Hm; lia|exact I].
+  - intros _ _ Hd. exact Hd.
+Qed.
+
+Lemma step_factsC t g l g' l' es :
+  GInv g -> LInvC g t l -> step t g l = Some (g', l', es) -> Facts t g l g' l'.
+Proof.
+  intros HG [HL|HD] Hs.
+  - pose proof (L0 _ _ _ HL) as (Hcf & Hdy & Hfz).
+    destruct (fuse l) as [[|k]|] eqn:Ef.
+    + assert (Hz : Some 0%nat <> @None nat) by discriminate. destruct (Hfz Hz) as [Hb _].
+      rewrite (step_fuse0 t g l Ef Hb) in Hs. inversion Hs; subst g' l' es; clear Hs.
+      apply abandon_facts; auto.
+    + assert (Hz : Some (S k) <> @None nat) by discriminate. destruct (Hfz Hz) as [Hb _].
+      rewrite (step_fuseS t g l k Ef Hb) in Hs.
+      destruct (step_facts t g _ HG (linv_setfuse g t l k HL Ef) _ _ _ Hs) as [F1 F2 F3 F4 F5 F6 F7 F8 F9 F10 F11].
+      constructor; [exact F1|exact F2|exact F3|exact F4|exact F5|exact F6|exact F7|exact F8|exact F9|exact F10|exact F11].
+    + unfold step in Hs. rewrite Ef in Hs. eapply step_facts; eauto.
+  - pose proof (D0 _ _ _ HD) as (_ & _ & Hfn & _). unfold step in Hs. rewrite Hfn in Hs.
+    eapply dirty_facts; eauto.
+Qed.
+
 (* ---------------- the extended invariant ---------------- *)
 Definition LOld (g : cgst) (t : nat) (l : clst) : Prop :=
   forall n e, cells g n = owner_of t e -> e < epoch l -> settled g n = true /\ odd (gens g n) = true.
+Definition LScan (g : cgst) (t : nat) (l : clst) : Prop :=
+  dirty l = true -> (forall m, m < scan_idx g (pc l) -> cells g m <> owner_of t (epoch l)) /\
+    match pc l with RecPDist0 n o _ _ => o <> owner_of t (epoch l) -> cells g n <> owner_of t (epoch l) | _ => True end.
+Definition LDead (g : cgst) (t : nat) (l : clst) : Prop :=
+  (forall n e, cells g n = owner_of t e -> ~ In e (dead l)) /\ (forall e, In e (dead l) -> e < epoch l).
 Definition GOwn (g : cgst) : Prop := forall i, cells g i <> EMPTY -> exists u e, cells g i = owner_of u e.
+Definition GCap (g : cgst) : Prop := forall i, cells g i <> EMPTY -> i < cap g.
 Definition PendInv (c : cfg cgst clst) : Prop :=
   forall i, settled (fst c) i = false -> odd (gens (fst c) i) = true ->
-    exists u, stale_pc (pc (snd c u)) = Some (i, gens (fst c) i).
+    (exists u, stale_pc (pc (snd c u)) = Some (i, gens (fst c) i)) \/ (exists u, In i (orph (snd c u))).
 Definition Owed (c : cfg cgst clst) : Prop :=
   forall t i, scanned (pc (snd c t)) i = true -> i < cap (fst c) ->
     rgen (snd c t) i = gens (fst c) i \/ rchange (snd c t) < change (fst c) \/
-    exists u, will_bump (pc (snd c u)) = true.
+    exists u, wb (snd c u) = true.
 Definition Inv2 (c : cfg cgst clst) : Prop :=
-  Inv c /\ (forall t, LOld (fst c) t (snd c t)) /\ GOwn (fst c) /\ PendInv c /\ Owed c.
+  Inv c /\ (forall t, LOld (fst c) t (snd c t) /\ LScan (fst c) t (snd c t) /\ LDead (fst c) t (snd c t)) /\
+  GOwn (fst c) /\ GCap (fst c) /\ PendInv c /\ Owed c.
+
+Lemma cells_back t t' g g' m e : t <> t' -> Guar t' g g' -> cells g' m = owner_of t e -> cells g m = owner_of t e.
+Proof.
+  intros Hne HG Hc. destruct (Gcell _ _ _ HG m) as [E|[[_ E]|[_ E]]].
+  - congruence.
+  - exfalso. apply Hne. eapply owned_other; eauto. exists e. auto.
+  - rewrite Hc in E. exfalso. eapply owner_not_empty; eauto.
+Qed.
 
 Lemma lold_stable t t' g g' l : t <> t' -> Guar t' g g' -> LOld g t l -> LOld g' t l.
 Proof.
   intros Hne HG H n e Hc He.
   assert (Hnt : forall v, v = owner_of t e -> ~ owned_by t' v).
   { intros v -> Ho. apply Hne. eapply owned_other; eauto. exists e. reflexivity. }
-  assert (Hc0 : cells g n = owner_of t e).
-  { destruct (Gcell _ _ _ HG n) as [E|[[_ E]|[_ E]]].
-    - congruence.
-    - exfalso. exact (Hnt _ Hc E).
-    - rewrite Hc in E. exfalso. eapply owner_not_empty; eauto. }
+  pose proof (cells_back _ _ _ _ _ _ Hne HG Hc) as Hc0.
   destruct (H n e Hc0 He) as [Hs Ho].
   destruct (Gslot _ _ _ HG n) as [(E1 & E2 & E3)|[E|[E|(E1 & _)]]].
   - rewrite E1, E3. auto.
@@ -187,18 +358,27 @@ Proof.
   - exfalso. exact (Hnt _ Hc E).
   - congruence.
 Qed.
-Lemma gown_guar t g g' : Guar t g g' -> GOwn g -> GOwn g'.
+Lemma lscan_stable t t' g g' l : t <> t' -> Guar t' g g' -> LScan g t l -> LScan g' t l.
 Proof.
-  intros HG H i Hi. destruct (Gcell _ _ _ HG i) as [E|[[_ [e E]]|[_ E]]].
-  - rewrite E in *. auto.
-  - exists t, e. auto.
-  - contradiction.
+  intros Hne HG H Hd. destruct (H Hd) as [A B]. split.
+  - intros m Hm Hc. apply (A m).
+    + destruct (pc l); cbn in *; auto. rewrite <- (Gcap _ _ _ HG). exact Hm. rewrite <- (Gcap _ _ _ HG). exact Hm.
+    + eapply cells_back; eauto.
+  - destruct (pc l); auto. intros Ho Hc. apply (B Ho). eapply cells_back; eauto.
 Qed.
+Lemma ldead_stable t t' g g' l : t <> t' -> Guar t' g g' -> LDead g t l -> LDead g' t l.
+Proof. intros Hne HG [A B]. split; auto. intros n e Hc. apply (A n). eapply cells_back; eauto. Qed.
 
-Lemma inv2_init c d0 d1 d2 progs : crash_free progs -> Inv2 (init c d0 d1 d2 progs).
+Lemma inv2_init c d0 d1 d2 progs : crash_ok progs -> Inv2 (init c d0 d1 d2 progs).
 Proof.
-  intros Hcf. split; [apply inv_init; auto|]. split; [|split; [|split]].
-  - intros u n e H. cbn in H. exfalso. eapply owner_not_empty. symmetry. exact H.
+  intros Hcf. split; [apply inv_init; auto|]. split; [|split; [|split; [|split]]].
+  - intros u. split; [|split].
+    + intros n e H. cbn in H. exfalso. eapply owner_not_empty. symmetry. exact H.
+    + intros H. cbn in H. discriminate.
+    + split.
+      * intros n e H. cbn in H. exfalso. eapply owner_not_empty. symmetry. exact H.
+      * intros e H. cbn in H. contradiction.
+  - intros i H. cbn in H. contradiction.
   - intros i H. cbn in H. contradiction.
   - intros i _ H. cbn in H. discriminate.
   - intros u i _ _. left. reflexivity.
@@ -206,28 +386,38 @@ Qed.
 
 Theorem inv2_step t c c' e : Inv2 c -> step1 step t c = Some (c', e) -> Inv2 c'.
 Proof.
-  destruct c as [g ls]. intros (HI & HO & HW & HP & HD) Hs.
+  destruct c as [g ls]. intros (HI & HO & HW & HC & HP & HD) Hs.
   pose proof (step_inv t _ _ _ HI Hs) as HI'.
   destruct HI as [HG HLs]. unfold step1 in Hs. cbn [fst snd] in *.
   destruct (step t g (ls t)) as [[[g' l'] e']|] eqn:Est; [|discriminate].
   inversion Hs; subst c' e; clear Hs.
-  rewrite (step_is_acc t g (ls t) (HLs t)) in Est.
-  pose proof (step_ok t g (ls t) HG (HLs t)) as H. rewrite Est in H. cbn in H. destruct H as (HGu & HL' & HG').
-  pose proof (step_facts t g (ls t) HG (HLs t) _ _ _ Est) as [F1 F2 F3 F4 F5 F6 F7].
-  split; [exact HI'|]. unfold PendInv, Owed. cbn [fst snd]. split; [|split; [|split]].
+  destruct (step_okC t g (ls t) g' l' e' HG (HLs t) Est) as (HGu & HL' & HG').
+  pose proof (step_factsC t g (ls t) g' l' e' HG (HLs t) Est) as [F1 F2 F3 F4 F5 F6 F7 F8 F9 F10 F11].
+  destruct (HO t) as (HOt & HSt & HDt).
+  split; [exact HI'|]. unfold PendInv, Owed. cbn [fst snd]. split; [|split; [|split; [|split]]].
   - intros u. destruct (Nat.eq_dec u t) as [->|Hne].
-    + rewrite upd_l_same. exact (F6 (HO t)).
-    + rewrite upd_l_other by auto. eapply lold_stable; eauto.
+    + rewrite upd_l_same. split; [|split].
+      * exact (F6 HC (fun Hd => proj1 (HSt Hd)) HOt).
+      * intros Hd. exact (F10 HSt Hd).
+      * exact (F11 HC (fun Hd => proj1 (HSt Hd)) HDt).
+    + rewrite upd_l_other by auto. destruct (HO u) as (A & B & C).
+      split; [eapply lold_stable; eauto|]. split; [eapply lscan_stable; eauto|eapply ldead_stable; eauto].
   - exact (F7 HW).
+  - exact (F9 HC).
   - intros i Hs Ho. destruct (F4 i Hs Ho) as [[Hs0 Eg]|Est'].
-    + rewrite Eg in Ho. destruct (HP i Hs0 Ho) as [u Hu]. cbn [fst snd] in Hu. exists u.
-      destruct (Nat.eq_dec u t) as [->|Hne].
-      * rewrite upd_l_same. rewrite Eg. apply F5; auto.
-      * rewrite upd_l_other by auto. rewrite Eg. exact Hu.
-    + exists t. rewrite upd_l_same. exact Est'.
+    + rewrite Eg in Ho. destruct (HP i Hs0 Ho) as [[u Hu]|[u Hu]]; cbn [fst snd] in Hu.
+      * destruct (Nat.eq_dec u t) as [->|Hne].
+        -- destruct (F5 i (gens g i) Hu eq_refl Eg) as [E|E].
+           ++ left. exists t. rewrite upd_l_same. rewrite Eg. exact E.
+           ++ right. exists t. rewrite upd_l_same. exact E.
+        -- left. exists u. rewrite upd_l_other by auto. rewrite Eg. exact Hu.
+      * right. exists u. destruct (Nat.eq_dec u t) as [->|Hne].
+        -- rewrite upd_l_same. apply F8. exact Hu.
+        -- rewrite upd_l_other by auto. exact Hu.
+    + left. exists t. rewrite upd_l_same. exact Est'.
   - intros u i. pose proof (Gmono _ _ _ HGu) as [Hch _]. rewrite (Gcap _ _ _ HGu).
     assert (Hcase : forall l0, (l0 = ls u) -> scanned (pc l0) i = true -> i < cap g -> rchange l0 <= change g ->
-              rgen l0 i = gens g' i \/ rchange l0 < change g' \/ exists w, will_bump (pc (upd_l ls t l' w)) = true).
+              rgen l0 i = gens g' i \/ rchange l0 < change g' \/ exists w, wb (upd_l ls t l' w) = true).
     { intros l0 -> Hsc Hi Hrc. destruct (HD u i Hsc Hi) as [Ea|[Eb|[w Ew]]]; cbn [fst snd] in *.
       - destruct (N.eq_dec (gens g' i) (gens g i)) as [E|E]; [left; congruence|].
         right. right. exists t. rewrite upd_l_same. apply (F1 i E).
@@ -237,12 +427,12 @@ Proof.
         + right. right. exists w. rewrite upd_l_other by auto. exact Ew. }
     destruct (Nat.eq_dec u t) as [->|Hne].
     + rewrite upd_l_same. intros Hsc Hi. destruct (F3 i Hsc Hi) as [(A & B & C)|B].
-      * rewrite B, C. apply (Hcase (ls t)); auto. apply (L1 _ _ _ (HLs t)).
+      * rewrite B, C. apply (Hcase (ls t)); auto. apply (c_L1 _ _ _ (HLs t)).
       * left. exact B.
-    + rewrite upd_l_other by auto. intros Hsc Hi. apply (Hcase (ls u)); auto. apply (L1 _ _ _ (HLs u)).
+    + rewrite upd_l_other by auto. intros Hsc Hi. apply (Hcase (ls u)); auto. apply (c_L1 _ _ _ (HLs u)).
 Qed.
 
-Theorem inv2_reach c d0 d1 d2 progs cf : crash_free progs ->
+Theorem inv2_reach c d0 d1 d2 progs cf : crash_ok progs ->
   reachable step (init c d0 d1 d2 progs) cf -> Inv2 cf.
 Proof.
   intros Hcf. apply (inv_reachable cgst clst ev step Inv2).
@@ -257,42 +447,58 @@ Definition reader_pc (p : cpc) : Prop := p = Idle \/ in_upd p = true.
 Lemma reader_not_writer p : reader_pc p -> will_bump p = false /\ stale_pc p = None /\ add_slot p = None.
 Proof. intros [->|H]; [auto|]. destruct p; try discriminate; auto. Qed.
 
+Lemma reader_fuse_none g t l : LInvC g t l -> dirty l = false -> reader_pc (pc l) -> fuse l = None.
+Proof.
+  intros H Hd Hp. pose proof (c_clean _ _ _ H Hd) as HL. destruct (L0 _ _ _ HL) as (_ & _ & Hfz).
+  destruct (fuse l) eqn:Ef; auto. destruct Hfz as [Hb _]; [discriminate|].
+  destruct Hp as [Hp|Hp]; [rewrite Hp in Hb; discriminate|]. destruct (pc l); try discriminate; destruct k; discriminate.
+Qed.
+
 Section Quiet.
   Variables (g : cgst) (ls : nat -> clst).
   Hypothesis HI : Inv2 (g, ls).
   Hypothesis HQ : forall u, reader_pc (pc (ls u)).
+  Hypothesis HA : forall u, dirty (ls u) = false.
 
   (* a snapshot whose change counter is current is the container *)
   Lemma quiet_sync t i :
     pc (ls t) = Idle -> rchange (ls t) = change g -> i < cap g ->
     rgen (ls t) i = gens g i /\ (odd (gens g i) = true -> rdata (ls t) i = datas g i).
   Proof.
-    destruct HI as ([HG HL] & _ & _ & _ & HD). cbn [fst snd] in *.
+    destruct HI as ([HG HL] & _ & _ & _ & _ & HD). cbn [fst snd] in *.
     intros Hpc Hch Hi.
     assert (E : rgen (ls t) i = gens g i).
     { destruct (HD t i) as [E|[E|[u E]]]; cbn [fst snd] in *; auto.
       - rewrite Hpc. reflexivity.
       - lia.
-      - destruct (reader_not_writer _ (HQ u)) as [E' _]. congruence. }
+      - destruct (reader_not_writer _ (HQ u)) as [E' _]. unfold wb in E. rewrite E', (HA u) in E. discriminate. }
     split; [exact E|]. intros Ho.
     assert (Hin : In (rgen (ls t) i, rdata (ls t) i) (published g i)).
-    { apply (L8 _ _ _ (HL t)); [rewrite Hpc; reflexivity|congruence]. }
+    { apply (c_L8 _ _ _ (HL t)); [rewrite Hpc; reflexivity|congruence]. }
     rewrite E in Hin. eapply (GC _ HG); eauto. apply (GB _ HG). exact Ho.
   Qed.
 
-  (* a slot is listed (odd generation) exactly when its index is owned *)
-  Lemma quiet_live i : odd (gens g i) = true <-> cells g i <> EMPTY.
+  (* a listed slot (odd generation) is owned -- unless it was orphaned inside the known window *)
+  Lemma quiet_listed_owned i : odd (gens g i) = true -> cells g i <> EMPTY \/ exists u, In i (orph (ls u)).
   Proof.
-    destruct HI as ([HG HL] & HO & HW & HP & _). cbn [fst snd] in *. split.
-    - intros Ho Hc. destruct (settled g i) eqn:Es.
-      + eapply (GE _ HG); eauto.
-      + destruct (HP i Es Ho) as [u Hu]. cbn [fst snd] in Hu.
-        destruct (reader_not_writer _ (HQ u)) as (_ & E & _). congruence.
-    - intros Hc. destruct (HW i Hc) as (u & e & Hu).
-      pose proof (L6 _ _ _ (HL u) i e Hu) as Hle.
-      destruct (N.eq_dec e (epoch (ls u))) as [->|Hne].
-      + apply (L5 _ _ _ (HL u) i Hu). destruct (reader_not_writer _ (HQ u)) as (_ & _ & E). rewrite E. discriminate.
-      + apply (HO u i e Hu). lia.
+    destruct HI as ([HG HL] & HO & HW & HC & HP & _). cbn [fst snd] in *.
+    intros Ho. destruct (N.eq_dec (cells g i) EMPTY) as [Hc|Hc]; [|left; exact Hc]. right.
+    destruct (settled g i) eqn:Es.
+    - exfalso. eapply (GE _ HG); eauto.
+    - destruct (HP i Es Ho) as [[u Hu]|Hu]; cbn [fst snd] in *; [|exact Hu].
+      destruct (reader_not_writer _ (HQ u)) as (_ & E & _). congruence.
+  Qed.
+  (* an owned slot is a complete entry of an owner that has not died *)
+  Lemma quiet_owned_listed i : cells g i <> EMPTY ->
+    odd (gens g i) = true /\ i < cap g /\ exists u e, cells g i = owner_of u e /\ e <= epoch (ls u) /\ ~ In e (dead (ls u)).
+  Proof.
+    destruct HI as ([HG HL] & HO & HW & HC & HP & _). cbn [fst snd] in *.
+    intros Hc. destruct (HW i Hc) as (u & e & Hu). destruct (HO u) as (HOu & _ & HDu & _).
+    pose proof (c_L6 _ _ _ (HL u) i e Hu) as Hle.
+    split; [|split; [apply HC; exact Hc|exists u, e; split; [exact Hu|split; [exact Hle|apply (HDu i); exact Hu]]]].
+    destruct (N.eq_dec e (epoch (ls u))) as [->|Hne].
+    - apply (L5 _ _ _ (c_clean _ _ _ (HL u) (HA u)) i Hu). destruct (reader_not_writer _ (HQ u)) as (_ & _ & E). rewrite E. discriminate.
+    - apply (HOu i e Hu). lia.
   Qed.
 End Quiet.
 
@@ -303,7 +509,7 @@ Lemma reader_step t g l g' l' es :
   Same g g' /\ reader_pc (pc l') /\ upd_only (prog l') = true /\
   (length (prog l') <= length (prog l))%nat /\
   ((length (prog l') < length (prog l))%nat -> rchange l' = change g') /\
-  (length (prog l') = length (prog l) -> rchange l' = rchange l).
+  (length (prog l') = length (prog l) -> rchange l' = rchange l) /\ dirty l' = dirty l.
 Proof.
   intros Hf Hpc Hu Hs. unfold step in Hs. rewrite Hf in Hs.
   unfold step_acc, upd_next in Hs. unfold reader_pc in *.
@@ -329,26 +535,27 @@ Proof. cbn [run]. destruct (step1 step t c) as [[c1 es]|]; [|reflexivity]. destr
    scheduled, started when no writer call is in flight: the container is frozen, and a thread
    that has consumed an update_state of its program has a current change counter *)
 Lemma readers_run (n0 : nat -> nat) : forall s c,
-  Inv2 c -> (forall u, reader_pc (pc (snd c u))) ->
+  Inv2 c -> (forall u, reader_pc (pc (snd c u))) -> (forall u, dirty (snd c u) = false) ->
   (forall u, In u s -> upd_only (prog (snd c u)) = true) ->
   (forall u, (length (prog (snd c u)) <= n0 u)%nat) ->
   (forall u, (length (prog (snd c u)) < n0 u)%nat -> rchange (snd c u) = change (fst c)) ->
   Inv2 (fst (run step s c)) /\ Same (fst c) (fst (fst (run step s c))) /\
-  (forall u, reader_pc (pc (snd (fst (run step s c)) u))) /\
+  (forall u, reader_pc (pc (snd (fst (run step s c)) u))) /\ (forall u, dirty (snd (fst (run step s c)) u) = false) /\
   (forall u, (length (prog (snd (fst (run step s c)) u)) < n0 u)%nat ->
              rchange (snd (fst (run step s c)) u) = change (fst (fst (run step s c)))).
 Proof.
-  induction s as [|t s IH]; intros c HI HQ HU HN HR.
+  induction s as [|t s IH]; intros c HI HQ HA HU HN HR.
   - cbn. split; [exact HI|]. split; [apply same_refl|]. split; auto.
   - rewrite run_cons_fst. destruct (step1 step t c) as [[c1 es]|] eqn:E1.
     + pose proof (inv2_step _ _ _ _ HI E1) as HI1.
       destruct c as [g ls]. unfold step1 in E1. cbn [fst snd] in *.
       destruct (step t g (ls t)) as [[[g1 l1] e1]|] eqn:Est; [|discriminate]. inversion E1; subst c1 es; clear E1.
       destruct HI as ([HG HL] & HI').
-      destruct (reader_step t g (ls t) g1 l1 e1 (proj1 (L0 _ _ _ (HL t))) (HQ t) (HU t (or_introl eq_refl)) Est)
-        as (HS & Hrp & Hup & Hlen & Hdec & Hsame).
-      destruct (IH (g1, upd_l ls t l1)) as (A & B & C & D); cbn [fst snd]; auto.
+      destruct (reader_step t g (ls t) g1 l1 e1 (reader_fuse_none _ _ _ (HL t) (HA t) (HQ t)) (HQ t) (HU t (or_introl eq_refl)) Est)
+        as (HS & Hrp & Hup & Hlen & Hdec & Hsame & Hdirty).
+      destruct (IH (g1, upd_l ls t l1)) as (A & B & C & C' & D); cbn [fst snd]; auto.
       * intros u. destruct (Nat.eq_dec u t) as [->|Hne]; [rewrite upd_l_same; auto|rewrite upd_l_other by auto; auto].
+      * intros u. destruct (Nat.eq_dec u t) as [->|Hne]; [rewrite upd_l_same; rewrite Hdirty; auto|rewrite upd_l_other by auto; auto].
       * intros u Hin. destruct (Nat.eq_dec u t) as [->|Hne]; [rewrite upd_l_same; auto|rewrite upd_l_other by auto; apply HU; right; auto].
       * intros u. destruct (Nat.eq_dec u t) as [->|Hne]; [rewrite upd_l_same; specialize (HN t); lia|rewrite upd_l_other by auto; auto].
       * intros u. destruct (Nat.eq_dec u t) as [->|Hne].
@@ -362,31 +569,50 @@ Qed.
 
 (* eventually exact *)
 Theorem quiescent_exact c d0 d1 d2 progs g ls s g' ls' t :
-  crash_free progs -> reachable step (init c d0 d1 d2 progs) (g, ls) ->
-  (forall u, pc (ls u) = Idle) ->
+  crash_ok progs -> reachable step (init c d0 d1 d2 progs) (g, ls) ->
+  (forall u, pc (ls u) = Idle /\ dirty (ls u) = false) ->
   (forall u, In u s -> upd_only (prog (ls u)) = true) ->
   fst (run step s (g, ls)) = (g', ls') ->
   pc (ls' t) = Idle -> (length (prog (ls' t)) < length (prog (ls t)))%nat ->
   (forall i, i < cap g ->
-     rgen (ls' t) i = gens g i /\ (odd (gens g i) = true -> rdata (ls' t) i = datas g i) /\
-     (odd (gens g i) = true <-> cells g i <> EMPTY)) /\
+     rgen (ls' t) i = gens g i /\ (odd (gens g i) = true -> rdata (ls' t) i = datas g i)) /\
   rchange (ls' t) = change g /\
   gens g' = gens g /\ datas g' = datas g /\ cells g' = cells g /\ change g' = change g.
 Proof.
   intros Hcf Hr Hidle Hup Hrun Hpc Hlen.
   pose proof (inv2_reach _ _ _ _ _ _ Hcf Hr) as HI.
-  destruct (readers_run (fun u => length (prog (ls u))) s (g, ls)) as (A & B & C & D); cbn [fst snd]; auto.
+  destruct (readers_run (fun u => length (prog (ls u))) s (g, ls)) as (A & B & C & C' & D); cbn [fst snd]; auto.
   - intros u. left. apply Hidle.
+  - intros u. apply Hidle.
   - intros u Hlt. lia.
   - rewrite Hrun in *. cbn [fst snd] in *.
     assert (Ech : rchange (ls' t) = change g') by (apply D; exact Hlen).
     split; [|split; [rewrite Ech; apply (Schange _ _ B)|]].
     + intros i Hi. rewrite <- (Scap _ _ B) in Hi.
-      destruct (quiet_sync g' ls' A C t i Hpc Ech Hi) as [E1 E2].
-      pose proof (quiet_live g' ls' A C i) as E3.
-      rewrite (Sgens _ _ B), (Sdatas _ _ B), (Scells _ _ B) in *. auto.
+      destruct (quiet_sync g' ls' A C C' t i Hpc Ech Hi) as [E1 E2].
+      rewrite (Sgens _ _ B), (Sdatas _ _ B) in *. auto.
     + repeat split; [apply (Sgens _ _ B)|apply (Sdatas _ _ B)|apply (Scells _ _ B)|apply (Schange _ _ B)].
 Qed.
+
+(* what is listed when nothing is in flight and every dead owner has been recovered *)
+Theorem quiet_registry c d0 d1 d2 progs g ls i :
+  crash_ok progs -> reachable step (init c d0 d1 d2 progs) (g, ls) ->
+  (forall u, reader_pc (pc (ls u)) /\ dirty (ls u) = false) ->
+  (odd (gens g i) = true -> cells g i <> EMPTY \/ exists u, In i (orph (ls u))) /\
+  (cells g i <> EMPTY ->
+     odd (gens g i) = true /\ i < cap g /\
+     exists u e, cells g i = owner_of u e /\ e <= epoch (ls u) /\ ~ In e (dead (ls u))).
+Proof.
+  intros Hcf Hr HQ. pose proof (inv2_reach _ _ _ _ _ _ Hcf Hr) as HI.
+  split.
+  - apply (quiet_listed_owned g ls HI); intros u; apply HQ.
+  - apply (quiet_owned_listed g ls HI); intros u; apply HQ.
+Qed.
+
+(* the window leaves its mark: an abandoned call makes its thread dirty, and only the abandon
+   inside the window adds a slot to `orph` (by definition of `abandon`) *)
+Lemma orph_only_window l : orph (abandon l) = match window_slot (pc l) with Some i => i :: orph l | None => orph l end.
+Proof. reflexivity. Qed.
 
 (* ... and the next refresh reports no change and leaves the snapshot alone *)
 Theorem refresh_unchanged t g l p :
@@ -397,4 +623,15 @@ Theorem refresh_unchanged t g l p :
 Proof.
   intros Hf Hpc Hp Hc. unfold step. rewrite Hf. unfold step_acc. rewrite Hpc, Hp, Hc, N.eqb_refl.
   eexists. eexists. split; [reflexivity|]. cbn. repeat split; auto.
+Qed.
+
+(* the completion of the recover of an owner that died inside a call records its epoch as dead
+   and gives the thread a fresh, clean owner id *)
+Lemma recover_marks_dead t g l acc lk :
+  pc l = RecIncChange acc lk -> fuse l = None -> dirty l = true ->
+  exists g' l' es, step t g l = Some (g', l', es) /\ dirty l' = false /\ epoch l' = epoch l + 1 /\ In (epoch l) (dead l') /\
+                   pc l' = Idle.
+Proof.
+  intros Hpc Hf Hd. unfold step. rewrite Hf. unfold step_acc. rewrite Hpc, Hd.
+  do 3 eexists. split; [reflexivity|]. cbn. auto.
 Qed.
